@@ -12,6 +12,16 @@ OP_NOTE = ("Trusted: TLC; the harness store (harness/modelstore) as an implement
            "implementation traces are TLC-simulated behaviours plus seeded random histories, not all histories.")
 
 CLAIMS = {
+    "C10": dict(level="fault_enumeration", ref="DESIGN.md §3 C10",
+                text="spec/Faults.tla: case = (flow, router, k, kind): the k-th storage call made while the request completing a prepared flow is served fails "
+                     "with a plain error or context.DeadlineExceeded; 29 flows (authorize with and without hint, callback code / form_post / implicit / id_token, "
+                     "code exchange for opaque / JWT / private_key_jwt clients, refresh, client credentials, jwt-bearer, token exchange x4, device authorization, "
+                     "device poll, userinfo, introspection, revocation x3, end session x2) x both routers x every k up to the longest call sequence. Rule: a "
+                     "failed storage call => error answer (OAuth error document / error page >= 400 / error redirect to the validated URI / inactive) and no "
+                     "code, token, claim, device code or active:true in status, body or Location. In addition rule C10.failclosed of OP.tla is evaluated by "
+                     "the monitor on seeded random histories in which a third of the operations run with a failing storage method.",
+                technique="TLA+ spec of the fault plan model-checked / exported with TLC; exhaustive fault-position sweep executed on both routers; outcomes judged by the TLA+ monitors (FaultsTrace, OPTrace)",
+                note="Exhaustive over fault positions of the prepared flows; storage = harness store with a fault plan scoped to request serving."),
     "C12": dict(level="model_checking", ref="DESIGN.md §3 C12, §4",
                 text="spec/Codec.tla: (merge) for each of the eight claims types, every choice of <= 2 (quick) / <= 4 (thorough) registered claims set and custom "
                      "claims present among the probed names (all colliding with registered names) plus one non-colliding custom claim: registered wins, custom "
